@@ -262,6 +262,9 @@ OPS["acct_params_get"] = _op(6, 1, 2, ["acct_params_field"], mode="app")
 OPS["replace2"] = _op(7, 2, 1, ["uint8"])
 # "..., A: []byte, B: uint64, C: []byte -> ..., []byte"
 OPS["replace3"] = _op(7, 3, 1)
+# assembler pseudo-op (v7): `replace s` assembles to replace2 s (pops 2), bare `replace` to replace3 (pops 3).
+# Added by the harness author (not part of the sub-agent transcription); "optional immediate" kind is `uint8?`.
+OPS["replace"] = _shuf(7, "replace", ["uint8?"], pseudo=True)
 # spec: "Cost: 1 + 1 per 16 bytes of A"
 OPS["base64_decode"] = _op(
     7, 1, 1, ["base64_encoding"], cost=1,
@@ -623,6 +626,8 @@ def stack_effect(op, imms=()):
     if e["pops"] is not None:
         return (e["pops"], e["pushes"])
     tag = e["stack"]
+    if tag == "replace":
+        return (2, 1) if len(imms) >= 1 else (3, 1)
     if tag == "dup":
         return (1, 2)
     if tag == "dup2":
@@ -709,11 +714,11 @@ def _internal_checks(problems):
         "label*", "txn_field", "txna_field", "global_field",
         "asset_holding_field", "asset_params_field", "app_params_field",
         "acct_params_field", "ecdsa_curve", "base64_encoding", "json_ref_type",
-        "vrf_standard", "block_field", "addr", "method_sig",
+        "vrf_standard", "block_field", "addr", "method_sig", "uint8?",
     }
     tags = {"dup", "dup2", "swap", "dig", "cover", "uncover", "bury", "popn",
             "dupn", "pushints", "pushbytess", "match", "proto", "frame_dig",
-            "frame_bury"}
+            "frame_bury", "replace"}
     for n, e in OPS.items():
         if not (1 <= e["v"] <= MAX_VERSION):
             problems.append("OPS[%s]: bad version" % n)
